@@ -1,14 +1,16 @@
 (** C08 — property theorems only; each closed by [exact] of a lemma proved in Tree/*.v.
     Model: Tree/TreeDefs.v (BaseBlockTree flag algebra, kinds ALT and POW).  [Inv_flags] = proper tree + heights +
-    "FAILED_CHILD <=> the parent is failed" + "live blocks are at least VALID_TREE".
+    "every child of a failed block carries FAILED_CHILD" + "live blocks are at least VALID_TREE".  (The converse
+    "FAILED_CHILD only below a failed block" is NOT an invariant of the code: removeSubtree drops FAILED_POP of the
+    removed blocks and keeps the FAILED_CHILD of their descendants.)
     Not proved here (named in META of props/C08.py): the tip-set / active-tip part of inv_reval_id, the
     descendant-closure form of invalidate_exact (given pointwise below), best_chain_never_invalid. *)
 From Coq Require Import ZArith NArith List Bool.
 From VB Require Import Tree.TreeDefs Tree.TreeInv Tree.TreePass Tree.TreeProofs.
 Import ListNotations.
 
-(* invalidateSubtree, every early exit included, re-establishes the flag invariant: afterwards a block carries
-   FAILED_CHILD iff its parent is failed - so everything below the invalidated block is failed, nothing else changes class *)
+(* invalidateSubtree, every early exit included, re-establishes the flag invariant: afterwards every child of a failed
+   block carries FAILED_CHILD - so everything below the invalidated block is failed *)
 Theorem C08_invalidate_keeps_flag_invariant :
   forall s id r ord s', Inv_flags s -> invalidate s id r ord = Done s' -> Inv_flags s'.
 Proof. exact invalidate_inv. Qed.
@@ -43,13 +45,13 @@ Theorem C08_reval_pass_is_traversal :
 Proof. exact reval_pass_gpass. Qed.
 Print Assumptions C08_reval_pass_is_traversal.
 
-(* in every state of the invariant: FAILED_CHILD <=> failed parent *)
-Theorem C08_failed_child_iff_failed_parent :
+(* in every state of the invariant: the children of a failed block carry FAILED_CHILD *)
+Theorem C08_failed_parent_failed_child :
   forall s, Inv_flags s -> forall p x q y,
     find_blk p (blocks s) = Some x -> bparent x = Some q -> find_blk q (blocks s) = Some y ->
-    (fchild (bst x) = true <-> failed (bst y) = true).
-Proof. exact failed_parent_iff_failed_child. Qed.
-Print Assumptions C08_failed_child_iff_failed_parent.
+    failed (bst y) = true -> fchild (bst x) = true.
+Proof. exact failed_parent_failed_child. Qed.
+Print Assumptions C08_failed_parent_failed_child.
 
 (* nested_inv_reval (partial: invariant form): every interleaving of invalidations, revalidations, removals and state
    switches, with both reasons, on both trees, keeps the flag invariant *)
